@@ -1,7 +1,7 @@
 """C05 — MATLAB call-site ids and the MEX dispatch table always agree (explicit-state model checking on the real code).
 
 State machine = the real MatlabWrapper consuming declarations; a transition appends one declaration shape from a
-16-letter alphabet to the interface; the state reached is rebuilt by running the real generator on the whole
+19-letter alphabet to the interface; the state reached is rebuilt by running the real generator on the whole
 sequence (live objects are never copied).  States are canonicalised as (next id, multiset of allocated roles).
 The invariant is evaluated in every state, i.e. on every generated toolbox:
     ids at .m call sites == case labels == {0..n-1}; every id has exactly one call site and one case; every case
@@ -78,6 +78,19 @@ def shape(k, i):
         return [D.func(single(T('T')), 'ft' + s, [arg(T('T'), 'a')], tpl=[D.tparam('T', [T('double'), T('string')])])]
     if k == 'enum':
         return [D.enum('En' + s, ['A', 'B'])]
+    if k == 'funcs-split':
+        # overloads of one free function separated by other declarations
+        return [D.func(single(I), 'fs' + s, [arg(I, 'a')]), D.func(single(I), 'fo' + s, [arg(T('double'), 'x')]),
+                D.cls('Mid' + s, [D.ctor('Mid' + s)]), D.func(single(I), 'fs' + s, [arg(I, 'a'), arg(I, 'b')])]
+    if k == 'plain-derived':
+        B, C = 'Nb' + s, 'Nd' + s
+        return [D.cls(B, [D.ctor(B), D.static(single(I), 'unit', [])]),
+                D.cls(C, [D.ctor(C), D.ctor(C, [arg(I, 'r')]), D.method(single(I), 'area', [], 1)], b=T(B))]
+    if k == 'rolenames':
+        C = 'Rn' + s
+        return [D.cls(C, [D.ctor(C), D.method(single(T('string')), 'string_serialize', [], 1),
+                          D.static(single(I), 'string_deserialize', [arg(T('string'), 'x')]),
+                          D.prop(I, 'value')])]
     if k == 'ns':
         C = 'Nc' + s
         return [D.ns('nn' + s, [D.cls(C, [D.ctor(C), D.method(single(I), 'mn', [])], v=1), D.func(single(I), 'fn' + s, [arg(I, 'a', '1')]),
@@ -86,7 +99,7 @@ def shape(k, i):
 
 
 ALPHABET = ['plain', 'ctors', 'noctor', 'virtual', 'derived', 'overloads', 'statics', 'props', 'tclass', 'serial',
-            'ignored', 'func', 'funcs', 'tfunc', 'enum', 'ns']
+            'ignored', 'func', 'funcs', 'tfunc', 'enum', 'ns', 'funcs-split', 'plain-derived', 'rolenames']
 CORE = ['plain', 'derived', 'overloads', 'props', 'funcs', 'ns']
 
 
@@ -173,10 +186,8 @@ def _class_role(ast, f, tag, args, guards, static):
         return ('getter', tag, name[4:], None)
     if not static and name.startswith('set.'):
         return ('setter', tag, name[4:], None)
-    if not static and name == 'string_serialize':
-        return ('serialize', tag, None, None)
-    if static and name == 'string_deserialize':
-        return ('deserialize', tag, None, None)
+    # (string_serialize / string_deserialize call sites look like ordinary method calls; whether they must reach
+    #  generated serialization code or a user method of that name is decided from the interface, see roles_agree)
     return ('static' if static else 'method', tag, name, _count(guards))
 
 
@@ -203,11 +214,13 @@ def routine_role(name, body):
         tag = m.group(1)
         ok = 'delete self' in b and ('collector_%s.find(self)' % tag) in b
         return ('deconstructor', tag, None, None) if ok else ('deconstructor-body-mismatch', tag, None, None)
+    # generated (de)serialization is recognised by its body, not by its name: a user may declare a method
+    # called string_serialize, whose routine must then be an ordinary method routine
     m = re.match(r'^(\w+?)_string_serialize$', base)
-    if m:
+    if m and 'out_archive << *obj' in b:
         return ('serialize', m.group(1), None, None)
     m = re.match(r'^(\w+?)_string_deserialize$', base)
-    if m:
+    if m and 'in_archive >> *output' in b:
         return ('deserialize', m.group(1), None, None)
     ca = re.search(r'checkArguments\("([^"]*)",nargout,nargin(-1)?,(\d+)\)', b)
     m = re.match(r'^(\w+?)_get_(\w+)$', base)
@@ -295,12 +308,13 @@ def check_toolbox(case):
         if len(calls) == 1 and calls[0] in mex['routines']:
             case_role[cid] = routine_role(calls[0], mex['routines'][calls[0]][0])
     nroles = 0
+    serial_tags = {'sn%d' % i + 'Se%d' % i for i, k in enumerate(seq) if k == 'serial'} if ser else set()
     for cid, role, where in sites:
         r = case_role.get(cid)
         if r is None:
             continue
         nroles += 1
-        if not roles_agree(role, r):
+        if not roles_agree(role, r, serial_tags):
             add('role-mismatch|%s->%s' % (role[0], r[0]),
                 'id %d: call site in %s is %r but case %d runs a routine that is %r (%s)'
                 % (cid, where, role, cid, r, [c for i, c in mex['cases'] if i == cid]))
@@ -308,9 +322,11 @@ def check_toolbox(case):
     return {'viol': viol, 'canon': repr(canon), 'n': n, 'nroles': nroles, 'inconclusive': len(inconclusive)}
 
 
-def roles_agree(site, routine):
+def roles_agree(site, routine, serial_tags=()):
     sk, stag, smem, sar = site
     rk, rtag, rmem, rar = routine
+    if sk in ('method', 'static') and smem in ('string_serialize', 'string_deserialize') and stag in serial_tags:
+        return (rk, rtag) == ('serialize' if smem == 'string_serialize' else 'deserialize', stag)
     if sk != rk:
         return False
     if sk == 'function':
@@ -362,7 +378,7 @@ def run(ctx):
         'ids_role_checked': sum(r.get('nroles', 0) for _, r in res),
         'inconclusive_m_files': sum(r.get('inconclusive', 0) for _, r in res),
         'alphabet': ALPHABET, 'core_alphabet': CORE,
-        'rule': 'every declaration sequence of length <= %d over the 16-letter alphabet%s (plus both serialization settings '
+        'rule': 'every declaration sequence of length <= %d over the 19-letter alphabet%s (plus both serialization settings '
                 'where a serializable class occurs); each transition runs the real MatlabWrapper on the extended interface; '
                 'states = distinct canonical (next id, role multiset); the invariant is checked on every toolbox'
                 % ((4, ' and length 5..6 over the 6-letter core') if ctx.thorough else (3, ' and length 4 over the 6-letter core')),
